@@ -316,10 +316,13 @@ func (te *TemplateEngine) RenderToDocument(templateName string, data *TemplateDa
 	}
 
 	// 渲染模板内容
-	renderedContent, err := te.renderTemplate(template, data)
+	renderedContent, values, err := te.renderTemplate(template, data)
 	if err != nil {
 		return nil, WrapErrorWithContext("render_to_document", err, templateName)
 	}
+	// 所有渲染步骤都已完成，现在才把值放进文本；值里形如图片占位符的文字先保持为记号，
+	// 等下面的图片占位符处理结束后再还原
+	renderedContent = values.expand(renderedContent, true)
 
 	// 将渲染内容应用到文档
 	if err := te.applyRenderedContentToDocument(doc, renderedContent); err != nil {
@@ -330,50 +333,103 @@ func (te *TemplateEngine) RenderToDocument(templateName string, data *TemplateDa
 	if err := te.processImagePlaceholders(doc, data); err != nil {
 		return nil, WrapErrorWithContext("render_to_document", err, templateName)
 	}
+	values.expandInDocument(doc)
 
 	return doc, nil
 }
 
-// renderTemplate 渲染模板
-func (te *TemplateEngine) renderTemplate(template *Template, data *TemplateData) (string, error) {
-	return te.renderTemplateWithOverrides(template, data, nil)
+// templateValues 一次渲染中插入的值。渲染由多个先后执行的正则替换步骤组成（变量、循环、条件、图片；
+// 派生模板还会在基础模板的渲染结果上再执行一遍），如果把值直接写进文本，后面的步骤会把值里的
+// "{{...}}" 当作模板语法再解释一次。因此各步骤只写入一个不透明的记号（NUL 序号 NUL），
+// 所有步骤结束后再用 expand 一次性还原。每次渲染使用自己的表（渲染可以并发执行）。
+type templateValues struct {
+	vals []string
+}
+
+var (
+	templateValueToken = regexp.MustCompile(`\x00\d+\x00`)
+	// 文档中会被当作图片占位符处理的两种写法（同一行内）
+	templateImageMarker = regexp.MustCompile(`\{\{#image[\t\f\r ]+\w+\}\}|\[IMAGE:\w+\]`)
+)
+
+// hold 记录一个值并返回代表它的记号。NUL 不能出现在文档文本中，从值里去掉，使值本身无法构成记号
+func (tv *templateValues) hold(value string) string {
+	tv.vals = append(tv.vals, strings.ReplaceAll(value, "\x00", ""))
+	return "\x00" + strconv.Itoa(len(tv.vals)-1) + "\x00"
+}
+
+// expand 把记号还原为值（只扫描一遍，值的内容不会再被解释）。keepImageMarkers 为 true 时，
+// 值里形如图片占位符的片段仍然保持为记号，留给 expandInDocument 还原
+func (tv *templateValues) expand(content string, keepImageMarkers bool) string {
+	if !strings.Contains(content, "\x00") {
+		return content
+	}
+	return templateValueToken.ReplaceAllStringFunc(content, func(token string) string {
+		index, err := strconv.Atoi(token[1 : len(token)-1])
+		if err != nil || index >= len(tv.vals) {
+			return token
+		}
+		value := tv.vals[index]
+		if keepImageMarkers {
+			value = templateImageMarker.ReplaceAllStringFunc(value, tv.hold)
+		}
+		return value
+	})
+}
+
+// expandInDocument 还原文档正文段落中剩余的记号
+func (tv *templateValues) expandInDocument(doc *Document) {
+	for _, element := range doc.Body.Elements {
+		if para, ok := element.(*Paragraph); ok {
+			for i := range para.Runs {
+				para.Runs[i].Text.Content = tv.expand(para.Runs[i].Text.Content, false)
+			}
+		}
+	}
+}
+
+// renderTemplate 渲染模板。返回的文本中值还是记号，由调用方用 values.expand 还原
+func (te *TemplateEngine) renderTemplate(template *Template, data *TemplateData) (string, *templateValues, error) {
+	values := &templateValues{}
+	content, err := te.renderTemplateWithOverrides(template, data, nil, values)
+	return content, values, err
 }
 
 // renderTemplateWithOverrides 渲染模板；overrides 是更下层（派生）模板重写的块内容（块名 -> 内容）。
 // 继承在渲染时解析：每个模板把自己定义的块加入重写表（派生层次越深优先级越高），
 // 最终由继承链根模板的内容套用重写表。模板对象本身在加载和渲染时都不会被修改。
-func (te *TemplateEngine) renderTemplateWithOverrides(template *Template, data *TemplateData, overrides map[string]string) (string, error) {
+func (te *TemplateEngine) renderTemplateWithOverrides(template *Template, data *TemplateData, overrides map[string]string, values *templateValues) (string, error) {
 	var content string
 
 	// 处理继承：如果有父模板，使用父模板作为基础
 	if template.Parent != nil {
 		merged := make(map[string]string, len(overrides)+len(template.DefinedBlocks))
 		for name, block := range template.DefinedBlocks {
-			merged[name] = block.DefaultContent
+			merged[name] = strings.ReplaceAll(block.DefaultContent, "\x00", "")
 		}
 		for name, blockContent := range overrides {
 			merged[name] = blockContent
 		}
 
 		// 渲染父模板作为基础内容（带上本模板及其派生模板的块重写）
-		parentContent, err := te.renderTemplateWithOverrides(template.Parent, data, merged)
+		parentContent, err := te.renderTemplateWithOverrides(template.Parent, data, merged, values)
 		if err != nil {
 			return "", err
 		}
 		content = parentContent
 	} else {
-		// 没有父模板，直接使用当前模板内容
-		content = template.Content
+		// 没有父模板，直接使用当前模板内容（模板文本中的 NUL 去掉：它只用于值的记号）
+		content = strings.ReplaceAll(template.Content, "\x00", "")
 	}
 
 	// 渲染块定义
 	content = te.renderBlocks(content, overrides)
 
 	// 渲染变量
-	content = te.renderVariables(content, data.Variables)
+	content = te.renderVariables(content, data.Variables, values)
 
 	// 渲染循环语句（先处理循环，循环内部会处理条件语句）
-	content = te.renderLoops(content, data.Lists)
+	content = te.renderLoops(content, data.Lists, values)
 
 	// 渲染条件语句（处理非循环内的条件语句）
 	content = te.renderConditionals(content, data.Conditions)
@@ -400,14 +456,14 @@ func (te *TemplateEngine) renderBlocks(content string, overrides map[string]stri
 	})
 }
 
-// renderVariables 渲染变量
-func (te *TemplateEngine) renderVariables(content string, variables map[string]interface{}) string {
+// renderVariables 渲染变量（写入的是值的记号，见 templateValues）
+func (te *TemplateEngine) renderVariables(content string, variables map[string]interface{}, values *templateValues) string {
 	varPattern := regexp.MustCompile(`\{\{(\w+)\}\}`)
 
 	return varPattern.ReplaceAllStringFunc(content, func(match string) string {
 		varName := varPattern.FindStringSubmatch(match)[1]
 		if value, exists := variables[varName]; exists {
-			return te.interfaceToString(value)
+			return values.hold(te.interfaceToString(value))
 		}
 		return match // 保持原样
 	})
@@ -449,13 +505,13 @@ func (te *TemplateEngine) renderConditionals(content string, conditions map[stri
 }
 
 // renderLoops 渲染循环语句
-func (te *TemplateEngine) renderLoops(content string, lists map[string][]interface{}) string {
+func (te *TemplateEngine) renderLoops(content string, lists map[string][]interface{}, values *templateValues) string {
 	// 使用栈式方法正确处理嵌套循环
-	return te.renderLoopsNested(content, lists, 0)
+	return te.renderLoopsNested(content, lists, 0, values)
 }
 
-// renderLoopsNested 使用递归方式处理嵌套循环
-func (te *TemplateEngine) renderLoopsNested(content string, lists map[string][]interface{}, depth int) string {
+// renderLoopsNested 使用递归方式处理嵌套循环（当前项及其字段的值写入的是记号，见 templateValues）
+func (te *TemplateEngine) renderLoopsNested(content string, lists map[string][]interface{}, depth int, values *templateValues) string {
 	// 查找第一个 {{#each}} 标记
 	eachStartPattern := regexp.MustCompile(`\{\{#each\s+(\w+)\}\}`)
 	startMatch := eachStartPattern.FindStringIndex(content)
@@ -526,7 +582,7 @@ func (te *TemplateEngine) renderLoopsNested(content string, lists map[string][]i
 	if listData, exists := lists[listVar]; exists {
 		for i, item := range listData {
 			// 创建循环上下文变量
-			loopContent := strings.ReplaceAll(blockContent, "{{this}}", te.interfaceToString(item))
+			loopContent := strings.ReplaceAll(blockContent, "{{this}}", values.hold(te.interfaceToString(item)))
 			loopContent = strings.ReplaceAll(loopContent, "{{@index}}", strconv.Itoa(i))
 			loopContent = strings.ReplaceAll(loopContent, "{{@first}}", strconv.FormatBool(i == 0))
 			loopContent = strings.ReplaceAll(loopContent, "{{@last}}", strconv.FormatBool(i == len(listData)-1))
@@ -545,7 +601,7 @@ func (te *TemplateEngine) renderLoopsNested(content string, lists map[string][]i
 
 				// 如果有嵌套列表，递归处理嵌套循环
 				if len(nestedLists) > 0 {
-					loopContent = te.renderLoopsNested(loopContent, nestedLists, depth+1)
+					loopContent = te.renderLoopsNested(loopContent, nestedLists, depth+1, values)
 				}
 
 				// 然后替换普通变量
@@ -553,7 +609,7 @@ func (te *TemplateEngine) renderLoopsNested(content string, lists map[string][]i
 					placeholder := fmt.Sprintf("{{%s}}", key)
 					// 只替换非列表类型的值
 					if _, isList := value.([]interface{}); !isList {
-						loopContent = strings.ReplaceAll(loopContent, placeholder, te.interfaceToString(value))
+						loopContent = strings.ReplaceAll(loopContent, placeholder, values.hold(te.interfaceToString(value)))
 					}
 				}
 
@@ -567,7 +623,7 @@ func (te *TemplateEngine) renderLoopsNested(content string, lists map[string][]i
 
 	// 添加循环之后的内容，并递归处理剩余内容中的其他循环
 	remainingContent := content[blockEnd+len("{{/each}}"):]
-	remainingContent = te.renderLoopsNested(remainingContent, lists, depth)
+	remainingContent = te.renderLoopsNested(remainingContent, lists, depth, values)
 	result.WriteString(remainingContent)
 
 	return result.String()
